@@ -112,7 +112,7 @@ type poly map[string]*big.Rat
 
 var polyMemo = map[int]poly{}
 
-const polyCap = 60000
+const polyCap = 1500000
 
 func monoMul(a, b string) string {
 	if a == "" {
@@ -215,6 +215,9 @@ func polyOf(t *Term) poly {
 	case "*":
 		a, b := polyOf(t.args[0]), polyOf(t.args[1])
 		if len(a)*len(b) > polyCap {
+			if os.Getenv("SYMGO_POLYDBG") != "" {
+				fmt.Fprintf(os.Stderr, "poly atom: product %d x %d beyond cap\n", len(a), len(b))
+			}
 			p = atom()
 			break
 		}
@@ -248,6 +251,9 @@ func polyOf(t *Term) poly {
 			p = atom()
 		}
 	default:
+		if os.Getenv("SYMGO_POLYDBG") != "" {
+			fmt.Fprintf(os.Stderr, "poly atom: op %s\n", t.op)
+		}
 		p = atom()
 	}
 	if len(p) > polyCap {
@@ -288,6 +294,9 @@ func polyEq(a, b *Term) (bool, bool) {
 		}
 	}
 	if other {
+		if os.Getenv("SYMGO_POLYDBG") != "" {
+			fmt.Fprintf(os.Stderr, "polyEq undecided: |a|=%d |b|=%d atomsA=%v atomsB=%v\n", len(pa), len(pb), len(pa) == 1, len(pb) == 1)
+		}
 		return false, false
 	}
 	return diffConst.Sign() == 0, true
@@ -303,8 +312,15 @@ type witness struct {
 	memo  map[int]*big.Rat
 }
 
+func mix64(x uint64) uint64 { // splitmix64 finaliser
+	x += 0x9e3779b97f4a7c15
+	x = (x ^ (x >> 30)) * 0xbf58476d1ce4e5b9
+	x = (x ^ (x >> 27)) * 0x94d049bb133111eb
+	return x ^ (x >> 31)
+}
+
 func genericValue(id int, salt int) *big.Rat {
-	x := uint64(id)*2654435761 + uint64(salt)*40503
+	x := mix64(uint64(id)*2 + uint64(salt))
 	return big.NewRat(int64(x%999983)+2, 1)
 }
 
@@ -400,7 +416,7 @@ func (w *witness) evalBV(t *Term, salt int) (uint64, bool) {
 		if v, ok := w.bvs[t.id]; ok {
 			return v, true
 		}
-		v := (uint64(t.id)*2654435761 + uint64(salt)*97) >> 7 & mask(t.w)
+		v := mix64(uint64(t.id)*2+uint64(salt)) & mask(t.w)
 		w.bvs[t.id] = v
 		return v, true
 	}
